@@ -36,11 +36,11 @@ RESOLVER_OPS = ["resolve", "resolving", "in_scope"]
 
 
 def generate(rng, tier="quick"):
-    world = W.gen_world(rng)
+    world = W.gen_world(rng) if tier == "quick" else W.gen_world(rng, ndefs=rng.randint(1, 10), ninstances=rng.randint(2, 7))
     fault_rate = rng.choice([0.0, 0.0, 0.35, 0.6])
     from dsim.sim import gen_cfg
     cfg = gen_cfg(rng, world, fault_rate)
-    nops = rng.randint(3, 14)
+    nops = rng.randint(3, 14 if tier == "quick" else 24)
     enabled = [k for k in VALIDATION_OPS if rng.random() < 0.7] or ["is_valid", "take_close"]
     if rng.random() < 0.6:
         enabled += [k for k in RESOLVER_OPS if rng.random() < 0.7]
